@@ -13,8 +13,8 @@ data output is `o`), `Covered g s0` (every input is fed by a node or available f
 `partialValues g ps sel` = the values `filter_outputs(state, graph, select, on_missing="ignore")` returns;
 `runGraphLoop` = the loop `run()` executes (`HG/Lemmas/Loop.lean`).
 
-Sections: 1 result of a paused run · 2 an interrupt runs alone · 3 partial state = state entering the
-pausing step · 5 resume path · 7 nested identity + `responseKey` · 8 recorded finding (nested resume key
+Sections: 1 result of a paused run · 2 an interrupt runs alone · 3 partial state = what the pausing step
+completed (an interrupt's own pause: the state entering the step) · 5 resume path · 7 nested identity + `responseKey` · 8 recorded finding (nested resume key
 not consumed) · 6 resume = auto-answer (executor, superstep, whole run) · 9 one interrupt at a time ·
 4 no dependant ran. -/
 namespace HG.C14
@@ -165,7 +165,7 @@ step on the one-element list `[i]`, `i` the first interrupt in ready order; that
 only `i` is executed. For a successful step the new state differs from the snapshot `s` only in `i`'s
 execution record and in names `i` declares as outputs (no sibling has an exec record or an output
 written), decisions are untouched, and every logged call is a call of `i`'s handler; a failed step
-reports the snapshot itself as partial state. -/
+and a pausing step report the snapshot itself as partial state. -/
 theorem isolated_step (nested : Nested) (sem : Sem) (gi : Nat) (g : GraphD) (span : Span) (k : Nat)
     (order : List Nat) (s : GState) (rs : List NodeD) (i : NodeD)
     (h : rs.find? (·.isInterrupt) = some i) :
@@ -178,11 +178,13 @@ theorem isolated_step (nested : Nested) (sem : Sem) (gi : Nat) (g : GraphD) (spa
       (∀ o, o ∉ i.outputs → AL.get? ns.values o = AL.get? s.values o) ∧
       ns.decisions = s.decisions ∧
       (∀ f a, Log.call f a ∈ log → f = fnId gi i)) ∧
-    (∀ e ps log, stepAsync nested sem gi g span k order s rs = .fail e ps log → ps = s) := by
+    (∀ e ps log, stepAsync nested sem gi g span k order s rs = .fail e ps log → ps = s) ∧
+    (∀ p ps log, stepAsync nested sem gi g span k order s rs = .pause p ps log → ps = s) := by
   have hi : i.kind = .interrupt := (isInterrupt_iff i).1 (by simpa using List.find?_some h)
   have hstep : stepAsync nested sem gi g span k order s rs = stepOne nested sem gi g span k s i := by
     rw [stepAsync_isolated nested sem gi g span k order s rs i h, stepAsync_singleton]
-  refine ⟨?_, stepAsync_isolated nested sem gi g span k order s rs i h, hstep, ?_, ?_⟩
+  refine ⟨?_, stepAsync_isolated nested sem gi g span k order s rs i h, hstep, ?_, ?_,
+    fun p ps log hp => stepAsync_pause_interrupt_state nested sem gi g span k order s rs i p ps log h hp⟩
   · obtain ⟨_, as, bs, hab, has⟩ := List.find?_eq_some_iff_append.1 h
     exact ⟨as, bs, hab, fun a ha => by simpa using has a ha, hi⟩
   · intro ns log hok
@@ -218,14 +220,17 @@ theorem isolated_step (nested : Nested) (sem : Sem) (gi : Nat) (g : GraphD) (spa
     · cases hf
 
 /-- in particular a pausing step with an interrupt in its ready list reports that interrupt's own pause:
-`p` is built by `execInterrupt` on `i` (so `p.nodeName = i.name`, …, see `pause_info_shape`) -/
+`p` is built by `execInterrupt` on `i` (so `p.nodeName = i.name`, …, see `pause_info_shape`), and the
+partial state it reports is the snapshot `s` itself -/
 theorem isolated_pause (nested : Nested) (sem : Sem) (gi : Nat) (g : GraphD) (span : Span) (k : Nat)
-    (order : List Nat) (s : GState) (rs : List NodeD) (i : NodeD) (p : PauseInfo) (l : List Log)
+    (order : List Nat) (s : GState) (rs : List NodeD) (i : NodeD) (p : PauseInfo) (ps : GState) (l : List Log)
     (h : rs.find? (·.isInterrupt) = some i)
-    (hp : stepAsync nested sem gi g span k order s rs = .pause p l) :
+    (hp : stepAsync nested sem gi g span k order s rs = .pause p ps l) :
+    ps = s ∧
     ∃ inputs, collectInputs g s i i.inputs = some inputs ∧ (execInterrupt sem gi i inputs s).pause = some p := by
+  refine ⟨stepAsync_pause_interrupt_state nested sem gi g span k order s rs i p ps l h hp, ?_⟩
   rw [stepAsync_isolated nested sem gi g span k order s rs i h] at hp
-  obtain ⟨nd, hmem, inputs, hc, hcases⟩ := stepAsync_pause_cases nested sem gi g span k order s [i] p l hp
+  obtain ⟨nd, hmem, inputs, hc, hcases⟩ := stepAsync_pause_cases nested sem gi g span k order s [i] p ps l hp
   rw [List.mem_singleton] at hmem; subst hmem
   have hi : nd.kind = .interrupt := (isInterrupt_iff nd).1 (by simpa using List.find?_some h)
   rcases hcases with ⟨_, hx⟩ | ⟨hg, _⟩
@@ -247,27 +252,35 @@ example : ∃ ns log,
     AL.has ns.execs "ask" = true ∧ AL.has ns.execs "side" = false := by
   refine ⟨_, _, rfl, ?_, ?_, ?_, ?_⟩ <;> decide
 
-/-! ## 3. the partial state of a paused run is the state entering the pausing step -/
+/-! ## 3. the partial state of a paused run is what the pausing step completed
 
-/-- C14.3 — a paused loop returns as partial state the state handed to the pausing step: the state
-`s0` the loop had reached, after the scheduler's clearing of stale gate decisions (same values, versions,
-execution records). Nothing the pausing step computed is in it. Every node of that step's ready list
-(the pausing node and all its siblings) needed execution in that state. -/
-theorem pause_state_is_pre_step (step : Nat → GState → List NodeD → StepOut) (g : GraphD)
+A pause reports what its superstep completed alongside it, exactly as a failure does: the partial state
+of a paused run is the partial state the pausing step reports. For the async step that is `ns2`
+(`asyncState`): the state entering the step with the outputs and execution records of the step's
+SUCCESSFUL siblings applied in ready order. When the pausing node is an interrupt node of this graph, the
+step ran that interrupt ALONE (§2) — there are no siblings, and the partial state IS the state entering the
+step (`pause_state_is_pre_step`). When the pause is re-raised by a nested-graph node, the siblings that
+succeeded in the same step are in it (`pause_state_nested`). -/
+
+/-- C14.3 (any step function) — a paused loop returns the partial state its pausing step reported. That
+step was handed `s1`: the state `s0` the loop had reached, after the scheduler's clearing of stale gate
+decisions (same values, versions, execution records). Every node of that step's ready list (the pausing
+node and all its siblings) needed execution in `s1`. -/
+theorem pause_state_of_pausing_step (step : Nat → GState → List NodeD → StepOut) (g : GraphD)
     (act : Option (List Name)) (mi fuel k : Nat) (s : GState) (log₀ : List Log)
     (p : PauseInfo) (ps : GState) (log : List Log) (n : Nat)
     (h : runLoop step g act mi fuel k s log₀ = .pause p ps log n) :
-    ∃ s0 rs k' l log', ready g act s0 = (rs, ps) ∧ rs ≠ [] ∧ step k' ps rs = .pause p l ∧
+    ∃ s0 s1 rs k' l log', ready g act s0 = (rs, s1) ∧ rs ≠ [] ∧ step k' s1 rs = .pause p ps l ∧
       n = k' + 1 ∧ k ≤ k' ∧ k' < k + fuel ∧ log = log' ++ l ∧
-      ps = clearStale g s0 ∧ ps.values = s0.values ∧ ps.versions = s0.versions ∧ ps.execs = s0.execs ∧
-      ∀ nd ∈ rs, nd ∈ g.nodes ∧ needsExec g ps nd = true ∧ ∀ q ∈ nd.inputs, hasInput g ps nd q = true := by
+      s1 = clearStale g s0 ∧ s1.values = s0.values ∧ s1.versions = s0.versions ∧ s1.execs = s0.execs ∧
+      ∀ nd ∈ rs, nd ∈ g.nodes ∧ needsExec g s1 nd = true ∧ ∀ q ∈ nd.inputs, hasInput g s1 nd q = true := by
   have ho := runLoop_outcome step g act mi fuel k s log₀
   rw [h] at ho
   cases ho with
-  | stepPause s0 s1 rs k' p l log' h1 h2 h3 h4 h5 =>
-    have hps : ps = clearStale g s0 := by
+  | stepPause s0 s1 rs k' p ps l log' h1 h2 h3 h4 h5 =>
+    have hps : s1 = clearStale g s0 := by
       have := congrArg Prod.snd h1; rw [ready_snd] at this; exact this.symm
-    refine ⟨s0, rs, k', l, log', h1, h2, h3, rfl, h4, h5, rfl, hps, ?_, ?_, ?_, ?_⟩
+    refine ⟨s0, s1, rs, k', l, log', h1, h2, h3, rfl, h4, h5, rfl, hps, ?_, ?_, ?_, ?_⟩
     · rw [hps]; exact clearStale_values g s0
     · rw [hps]; exact clearStale_versions g s0
     · rw [hps]; exact clearStale_execs g s0
@@ -277,20 +290,94 @@ theorem pause_state_is_pre_step (step : Nat → GState → List NodeD → StepOu
       rw [← hps] at hr
       exact ⟨ready_mem_nodes hmem, hr.2.2.2, hr.2.1⟩
 
-/-- on the loop `run()` executes: the values reported by the paused run are those of the state entering
-the pausing step, and the pausing async step is an interrupt's own pause or a nested graph's re-raise -/
+/-- C14.3 — async runner, pause of an interrupt node of this graph (the ready list of the pausing step
+contains an interrupt): the paused loop returns as partial state the state handed to the pausing step —
+the state `s0` the loop had reached, after the scheduler's clearing of stale gate decisions (same values,
+versions, execution records). Nothing the pausing step computed is in it. Every node of that step's ready
+list (the pausing node and all its siblings) needed execution in that state. -/
+theorem pause_state_is_pre_step (nested : Nested) (sem : Sem) (order : Nat → List Nat) (gi : Nat) (g : GraphD)
+    (span : Span) (act : Option (List Name)) (mi fuel k : Nat) (s : GState) (log₀ : List Log)
+    (p : PauseInfo) (ps : GState) (log : List Log) (n : Nat)
+    (h : runLoop (fun k s rs => stepAsync nested sem gi g span k (order k) s rs) g act mi fuel k s log₀ =
+      .pause p ps log n) :
+    ∃ s0 s1 rs k' l log', ready g act s0 = (rs, s1) ∧ rs ≠ [] ∧
+      stepAsync nested sem gi g span k' (order k') s1 rs = .pause p ps l ∧
+      n = k' + 1 ∧ k ≤ k' ∧ k' < k + fuel ∧ log = log' ++ l ∧
+      s1 = clearStale g s0 ∧ s1.values = s0.values ∧ s1.versions = s0.versions ∧ s1.execs = s0.execs ∧
+      (∀ nd ∈ rs, nd ∈ g.nodes ∧ needsExec g s1 nd = true ∧ ∀ q ∈ nd.inputs, hasInput g s1 nd q = true) ∧
+      ((∃ i ∈ rs, i.kind = .interrupt) →
+        ps = s1 ∧ ready g act s0 = (rs, ps) ∧ ps = clearStale g s0 ∧
+        ps.values = s0.values ∧ ps.versions = s0.versions ∧ ps.execs = s0.execs) := by
+  obtain ⟨s0, s1, rs, k', l, log', h1, h2, h3, hn, h4, h5, hlog, hs1, hv, hver, hex, hall⟩ :=
+    pause_state_of_pausing_step _ g act mi fuel k s log₀ p ps log n h
+  refine ⟨s0, s1, rs, k', l, log', h1, h2, h3, hn, h4, h5, hlog, hs1, hv, hver, hex, hall, ?_⟩
+  rintro ⟨i, hi, hk⟩
+  obtain ⟨i', hf⟩ := find_interrupt_of_mem hi hk
+  have hps : ps = s1 := stepAsync_pause_interrupt_state nested sem gi g span k' (order k') s1 rs i' p ps l hf h3
+  subst hps
+  exact ⟨rfl, h1, hs1, hv, hver, hex⟩
+
+/-- C14.3 (general case) — async runner, any pause, in particular one re-raised by a nested-graph node:
+the partial state of the paused loop is `ns2` of the pausing step (`asyncState`: the fold the model uses —
+decisions in completion order, then outputs and execution records of the successful nodes in ready order,
+starting from the state `s1` entering the step). On values: a name that no successful node of the step wrote
+keeps the value (or absence) it has in `s1`; every output of every successful node of the step is present;
+every value of `s1` is still present. (`okOuts r` is the outputs dict of a node that succeeded and `[]` for
+one that failed or paused; `asyncRs₂ rs` is the list of nodes the step runs: all of `rs`, or the first
+interrupt alone.) -/
+theorem pause_state_nested (nested : Nested) (sem : Sem) (order : Nat → List Nat) (gi : Nat) (g : GraphD)
+    (span : Span) (act : Option (List Name)) (mi fuel k : Nat) (s : GState) (log₀ : List Log)
+    (p : PauseInfo) (ps : GState) (log : List Log) (n : Nat)
+    (h : runLoop (fun k s rs => stepAsync nested sem gi g span k (order k) s rs) g act mi fuel k s log₀ =
+      .pause p ps log n) :
+    ∃ s0 s1 rs k' l, ready g act s0 = (rs, s1) ∧ n = k' + 1 ∧
+      stepAsync nested sem gi g span k' (order k') s1 rs = .pause p ps l ∧
+      ps = asyncState nested sem gi g span k' (order k') s1 rs ∧
+      ps = ((asyncRs₂ rs).map (asyncOne₂ nested sem gi g span k' s1)).foldl (valStep s1)
+            ((permute ((asyncRs₂ rs).map (asyncOne₂ nested sem gi g span k' s1)) (order k')).foldl decStep s1) ∧
+      ps.values = AL.merge s1.values (writes ((asyncRs₂ rs).map (asyncOne₂ nested sem gi g span k' s1))) ∧
+      (∀ name, (∀ r ∈ (asyncRs₂ rs).map (asyncOne₂ nested sem gi g span k' s1), name ∉ AL.keys (okOuts r)) →
+        AL.get? ps.values name = AL.get? s1.values name) ∧
+      (∀ r ∈ (asyncRs₂ rs).map (asyncOne₂ nested sem gi g span k' s1), ∀ o ∈ AL.keys (okOuts r),
+        AL.has ps.values o = true) ∧
+      (∀ q, AL.has s1.values q = true → AL.has ps.values q = true) ∧
+      ((∃ nd ∈ rs, nd.kind = .graph ∧ ∃ inputs,
+          (execGraphNode nested nd inputs (nodeSpanOf span k' nd)).pause = some p) ∨
+        ps = s1) := by
+  obtain ⟨s0, s1, rs, k', l, _, h1, _, h3, hn, _⟩ :=
+    pause_state_of_pausing_step _ g act mi fuel k s log₀ p ps log n h
+  obtain ⟨hps, nd, hmem, inputs, _, hcases⟩ :=
+    stepAsync_pause_cases_state nested sem gi g span k' (order k') s1 rs p ps l h3
+  obtain ⟨hv1, hv2, hv3⟩ := asyncState_values_spec nested sem gi g span k' (order k') s1 rs
+  refine ⟨s0, s1, rs, k', l, h1, hn, h3, hps, hps, ?_, ?_, ?_, ?_, ?_⟩
+  · rw [hps]; exact asyncState_values nested sem gi g span k' (order k') s1 rs
+  · rw [hps]; exact hv1
+  · rw [hps]; exact hv2
+  · rw [hps]; exact hv3
+  · rcases hcases with ⟨_, _, _, hs⟩ | ⟨hk, _, _, hx⟩
+    · exact Or.inr hs
+    · exact Or.inl ⟨nd, hmem, hk, inputs, hx⟩
+
+/-- on the loop `run()` executes: the pausing async step is an interrupt's own pause — then that interrupt
+is the first one in the ready list, and the values reported by the paused run are those of the state
+entering the pausing step — or a nested graph's re-raise — then no interrupt was ready, every ready node
+ran, and the partial state is that state with the step's successful siblings applied (`asyncState`) -/
 theorem paused_run_source (nested : Nested) (sem : Sem) (order : Nat → List Nat) (gi : Nat) (g : GraphD)
     (values : AL Val) (cfg : RunCfg) (span : Span) (parent : Option Span)
     (p : PauseInfo) (ps : GState) (log : List Log) (n : Nat)
     (h : runGraphLoop nested sem (.async order) gi g values cfg span parent = .pause p ps log n) :
-    ∃ s0 rs k, ready g (activeNodeSet g) s0 = (rs, ps) ∧ n = k + 1 ∧
-      (∃ l, stepAsync nested sem gi g span k (order k) ps rs = .pause p l) ∧
-      ∃ nd ∈ rs, ∃ inputs, collectInputs g ps nd nd.inputs = some inputs ∧
-        ((nd.kind = .interrupt ∧ (execInterrupt sem gi nd inputs ps).pause = some p) ∨
-         (nd.kind = .graph ∧ (execGraphNode nested nd inputs (nodeSpanOf span k nd)).pause = some p)) := by
-  obtain ⟨s0, rs, k', l, _, h1, _, h3, hn, _⟩ :=
-    pause_state_is_pre_step _ g _ _ _ _ _ _ p ps log n h
-  exact ⟨s0, rs, k', h1, hn, ⟨l, h3⟩, stepAsync_pause_cases nested sem gi g span k' (order k') ps rs p l h3⟩
+    ∃ s0 s1 rs k, ready g (activeNodeSet g) s0 = (rs, s1) ∧ n = k + 1 ∧
+      (∃ l, stepAsync nested sem gi g span k (order k) s1 rs = .pause p ps l) ∧
+      ps = asyncState nested sem gi g span k (order k) s1 rs ∧
+      ∃ nd ∈ rs, ∃ inputs, collectInputs g s1 nd nd.inputs = some inputs ∧
+        ((nd.kind = .interrupt ∧ rs.find? (·.isInterrupt) = some nd ∧
+            (execInterrupt sem gi nd inputs s1).pause = some p ∧ ps = s1) ∨
+         (nd.kind = .graph ∧ rs.find? (·.isInterrupt) = .none ∧ asyncRs₂ rs = rs ∧
+            (execGraphNode nested nd inputs (nodeSpanOf span k nd)).pause = some p)) := by
+  obtain ⟨s0, s1, rs, k', l, _, h1, _, h3, hn, _⟩ :=
+    pause_state_of_pausing_step _ g _ _ _ _ _ _ p ps log n h
+  obtain ⟨hps, hsrc⟩ := stepAsync_pause_cases_state nested sem gi g span k' (order k') s1 rs p ps l h3
+  exact ⟨s0, s1, rs, k', h1, hn, ⟨l, h3⟩, hps, hsrc⟩
 
 /-! non-vacuity: the paused run of `prog1` returns `x` (computed by `pre` in step 0) but neither
 `decision` (the interrupt's output), nor `s` (its sibling `side` in the pausing step), nor `out` -/
@@ -298,6 +385,44 @@ example :
     let r := run bodySem (.async ord0) prog1 0 [("a", .int 1)] { select := .all }
     r.status = .paused ∧ AL.has r.values "x" = true ∧ AL.has r.values "decision" = false ∧
     AL.has r.values "s" = false ∧ AL.has r.values "out" = false := by decide
+
+/-! non-vacuity (nested pause): `review` is a nested-graph node whose inner graph pauses at `ask`; its
+sibling `side(x) → s` is ready in the same step and succeeds. No interrupt of the OUTER graph is ready, so
+both nodes run; the pause re-raised by `review` reports the step's `ns2`: the paused run returns `s`
+(the sibling's output) next to the inputs' values — but not `decision`; `side` has an execution record,
+`review` has none. With `side` listed first the result is the same. -/
+
+def progNS : Program := elabProgram [
+  { name := "inner", nodes := [askSpec] },
+  { name := "outer", nodes := [{ name := "review", kind := .graph, inner := 0 }, sideSpec] }]
+def progSN : Program := elabProgram [
+  { name := "inner", nodes := [askSpec] },
+  { name := "outer", nodes := [sideSpec, { name := "review", kind := .graph, inner := 0 }] }]
+
+example : (ready (progNS.getD 1 default) .none (initState [("x", .int 5)])).1.map (·.name) = ["review", "side"] ∧
+    (ready (progNS.getD 1 default) .none (initState [("x", .int 5)])).1.find? (·.isInterrupt) = .none := by
+  decide
+
+example :
+    let r := run bodySem (.async ord0) progNS 1 [("x", .int 5)] { select := .all }
+    r.status = .paused ∧ (r.pause.map (·.nodeName)) = some "review/ask" ∧
+    r.values = [("s", Val.mkTup [.str "side", .int 5])] ∧ AL.has r.values "decision" = false := by decide
+
+example :
+    let r := run bodySem (.async ord0) progSN 1 [("x", .int 5)] { select := .all }
+    r.status = .paused ∧ (r.pause.map (·.nodeName)) = some "review/ask" ∧
+    r.values = [("s", Val.mkTup [.str "side", .int 5])] := by decide
+
+/-- the partial state of that paused loop: the sibling `side` is recorded and its output present, the
+pausing graph node `review` is not recorded — it will run again on resume -/
+def loopNS : LoopOut :=
+  runGraphLoop (nestedAt bodySem (.async ord0) progNS 2) bodySem (.async ord0) 1 (progNS.getD 1 default)
+    [("x", .int 5)] {} ["r"] .none
+def psNS : GState := match loopNS with | .pause _ ps _ _ => ps | _ => default
+
+example : ∃ p log, loopNS = .pause p psNS log 1 := ⟨_, _, rfl⟩
+example : AL.has psNS.values "s" = true ∧ AL.has psNS.execs "side" = true ∧
+    AL.has psNS.execs "review" = false ∧ AL.has psNS.values "decision" = false := by decide
 
 /-! ## 5. the resume path -/
 
@@ -514,7 +639,7 @@ theorem resume_eq_auto_step (sem₁ sem₂ : Sem) (gi : Nat) (nd : NodeD) (input
 /-- C14.6 (superstep level) — the same on the async superstep. `s` is the snapshot of the run with the
 answering handler (and of the first, pausing run); `s'` is the snapshot of the resumed run: it agrees
 with `s` except that the caller supplied `o ↦ r`. Then: under `sem₁` the step on `s` pauses at `nd`;
-the `sem₂` step on `s` and the `sem₁` step on `s'` both succeed, record `nd` (and nothing else), and leave
+(reporting `s` itself as partial state); the `sem₂` step on `s` and the `sem₁` step on `s'` both succeed, record `nd` (and nothing else), and leave
 states whose values agree on every name (`o` holds `r`); the resumed step never calls a handler. -/
 theorem resume_eq_auto_superstep (nested : Nested) (sem₁ sem₂ : Sem) (gi : Nat) (g : GraphD) (span : Span)
     (k k' : Nat) (order order' : List Nat) (s s' : GState) (rs rs' : List NodeD) (nd : NodeD)
@@ -526,7 +651,7 @@ theorem resume_eq_auto_superstep (nested : Nested) (sem₁ sem₂ : Sem) (gi : N
     (habs : AL.has s.values o = false) (hsup : AL.get? s'.values o = some r)
     (hsame : ∀ n, n ≠ o → AL.get? s'.values n = AL.get? s.values n)
     (hex : AL.has s'.execs nd.name = false) :
-    (∃ l, stepAsync nested sem₁ gi g span k order s rs = .pause (pauseInfoOf nd inputs o []) l) ∧
+    (∃ l, stepAsync nested sem₁ gi g span k order s rs = .pause (pauseInfoOf nd inputs o []) s l) ∧
     ∃ ns₂ l₂ ns₁ l₁,
       stepAsync nested sem₂ gi g span k order s rs = .ok ns₂ l₂ ∧
       stepAsync nested sem₁ gi g span k' order' s' rs' = .ok ns₁ l₁ ∧
@@ -543,7 +668,7 @@ theorem resume_eq_auto_superstep (nested : Nested) (sem₁ sem₂ : Sem) (gi : N
     have : AL.has s'.values o = true := by unfold AL.has; rw [hsup]; rfl
     simp [hd, this, hex]
   have hP : stepAsync nested sem₁ gi g span k order s rs =
-      .pause (pauseInfoOf nd inputs o []) (asyncOne₂ nested sem₁ gi g span k s nd).out.log := by
+      .pause (pauseInfoOf nd inputs o []) s (asyncOne₂ nested sem₁ gi g span k s nd).out.log := by
     rw [stepAsync_isolated nested sem₁ gi g span k order s rs nd hf, stepAsync_singleton]
     exact stepOne_interrupt_pause nested sem₁ gi g span k s nd hi inputs _ hc hA
   have hS2 := stepOne_interrupt_ok nested sem₂ gi g span k s nd hi inputs _ hc (by rw [hB]) (by rw [hB])
@@ -842,7 +967,8 @@ theorem one_at_a_time :
 single `PauseInfo` (`pause : Option PauseInfo`); it is produced by the FIRST superstep that does not
 succeed: all `j` earlier steps succeeded (`stateAfter … j … = some s0`: none of them paused, whatever
 interrupts they passed), and in that step — whenever its ready list contains an interrupt — the pause is
-the one of the first interrupt in ready order, which ran alone. -/
+the one of the first interrupt in ready order, which ran alone, and the partial state `ps` is the state
+that step was handed. -/
 theorem one_pause_per_run (nested : Nested) (sem : Sem) (order : Nat → List Nat) (gi : Nat) (g : GraphD)
     (values : AL Val) (cfg : RunCfg) (span : Span) (parent : Option Span)
     (p : PauseInfo) (ps : GState) (log : List Log) (n : Nat)
@@ -850,23 +976,27 @@ theorem one_pause_per_run (nested : Nested) (sem : Sem) (order : Nat → List Na
     (runGraph nested sem (.async order) gi g values cfg span parent).pause = some p ∧
     ∃ j s0, stateAfter (runStep nested sem (.async order) gi g span) g (activeNodeSet g) j 0 (initState values)
         = some s0 ∧
-      n = j + 1 ∧ ready g (activeNodeSet g) s0 = ((ready g (activeNodeSet g) s0).1, ps) ∧
-      (∃ l, stepAsync nested sem gi g span j (order j) ps (ready g (activeNodeSet g) s0).1 = .pause p l) ∧
+      n = j + 1 ∧
+      (∃ l, stepAsync nested sem gi g span j (order j) (ready g (activeNodeSet g) s0).2
+          (ready g (activeNodeSet g) s0).1 = .pause p ps l) ∧
       ∀ i, (ready g (activeNodeSet g) s0).1.find? (·.isInterrupt) = some i →
+        ready g (activeNodeSet g) s0 = ((ready g (activeNodeSet g) s0).1, ps) ∧
         p.nodeName = i.name ∧ i.dataOuts.head? = some p.outputParam ∧
         (∃ pre post, (ready g (activeNodeSet g) s0).1 = pre ++ i :: post ∧ ∀ a ∈ pre, a.isInterrupt = false) ∧
         ∃ inputs, collectInputs g ps i i.inputs = some inputs ∧ (execInterrupt sem gi i inputs ps).pause = some p := by
   refine ⟨by rw [pause_result_any_runner _ _ _ _ _ _ _ _ _ p ps log n h], ?_⟩
-  obtain ⟨j, s0, l, hst, _, hn, hps, _, hstep⟩ :=
+  obtain ⟨j, s0, l, hst, _, hn, _, hstep⟩ :=
     runLoop_pause_stateAfter _ g _ _ _ _ _ _ p ps log n h
-  refine ⟨j, s0, hst, by omega, by rw [← hps], ⟨l, by simpa [runStep] using hstep⟩, ?_⟩
-  intro i hi
-  have hstep' : stepAsync nested sem gi g span j (order j) ps (ready g (activeNodeSet g) s0).1 = .pause p l := by
+  have hstep' : stepAsync nested sem gi g span j (order j) (ready g (activeNodeSet g) s0).2
+      (ready g (activeNodeSet g) s0).1 = .pause p ps l := by
     simpa [runStep] using hstep
-  obtain ⟨inputs, hc, hp⟩ := isolated_pause nested sem gi g span j (order j) ps _ i p l hi hstep'
+  refine ⟨j, s0, hst, by omega, ⟨l, hstep'⟩, ?_⟩
+  intro i hi
+  obtain ⟨hps, inputs, hc, hp⟩ := isolated_pause nested sem gi g span j (order j) _ _ i p ps l hi hstep'
+  rw [← hps] at hc hp
   obtain ⟨hname, hhead, _⟩ := pause_info_shape sem gi i inputs ps p hp
   obtain ⟨_, as, bs, hab, has⟩ := List.find?_eq_some_iff_append.1 hi
-  exact ⟨hname, hhead, ⟨as, bs, hab, fun a ha => by simpa using has a ha⟩, inputs, hc, hp⟩
+  exact ⟨by rw [hps], hname, hhead, ⟨as, bs, hab, fun a ha => by simpa using has a ha⟩, inputs, hc, hp⟩
 
 /-- two pausing interrupts ready in the SAME step: only the first in ready order is named -/
 def progPar : Program := elabProgram [{ name := "par", nodes := [
@@ -881,7 +1011,8 @@ example :
 
 /-- C14.4 — invariant of the runner loop (async runner): every node with an execution record had all its
 inputs available when it ran, and values only grow; so in the partial state `ps` of a paused run every
-executed node has all its inputs available in `ps`. Contrapositive: a node one of whose inputs is
+executed node — the successful siblings of a pausing nested-graph node included: they were ready — has all
+its inputs available in `ps`. Contrapositive: a node one of whose inputs is
 unavailable in `ps` (not in the state, not bound, no default) has NO execution record — it never ran. -/
 theorem executed_had_inputs (nested : Nested) (sem : Sem) (order : Nat → List Nat) (gi : Nat) (g : GraphD)
     (values : AL Val) (cfg : RunCfg) (span : Span) (parent : Option Span)
@@ -891,7 +1022,8 @@ theorem executed_had_inputs (nested : Nested) (sem : Sem) (order : Nat → List 
     (∀ nd ∈ g.nodes, AL.has ps.execs nd.name = true → ∀ q ∈ nd.inputs, hasInput g ps nd q = true) ∧
     (∀ nd ∈ g.nodes, ∀ q ∈ nd.inputs, hasInput g ps nd q = false → AL.has ps.execs nd.name = false) := by
   have hI : ExecsHaveInputs g ps :=
-    runLoop_pause_execsHaveInputs (stepAsync_grows nested sem gi g span order) g _ _ _ _ _ _ p ps log n
+    runLoop_pause_execsHaveInputs (stepAsync_grows nested sem gi g span order)
+      (stepAsync_pause_grows nested sem gi g span order) g _ _ _ _ _ _ p ps log n
       (execsHaveInputs_init g values) h
   have h1 : ∀ nd ∈ g.nodes, AL.has ps.execs nd.name = true → ∀ q ∈ nd.inputs, hasInput g ps nd q = true := by
     intro nd hn hex
